@@ -525,6 +525,20 @@ def _renum_dest(d):
     return {"l": d["l"], "p": [list(e) for e in d["p"]]}
 
 
+def scope_of(path):
+    """the impl type (or, for free functions, the module) a function belongs to"""
+    p = re.sub(r"::\{closure#\d+\}", "", path)
+    p = re.sub(r"::promoted\[\d+\]", "", p)
+    m = re.search(r"<impl ([^<>]+(?:<[^<>]*>)?)>", p)
+    if m:
+        return re.sub(r"<.*", "", m.group(1)).strip()
+    m = re.match(r"^<(.+?) as .+>::[^:]+$", p)
+    if m:
+        return re.sub(r"<.*", "", m.group(1)).strip()
+    segs = [x for x in re.split(r"::(?![^<]*>)", p) if not x.startswith("<")]
+    return "::".join(segs[:-1])
+
+
 def inline_new_helpers(F):
     pinned = pinned_fns()
     if not pinned:
@@ -578,6 +592,12 @@ def inline_new_helpers(F):
     inl = {p for p in new if called[p] > 0 and p not in taken and not reaches_self(p) and len(new[p].blocks) <= 600}
     if not inl:
         return
+    foreign = set()
+    for fn in F.all_fns():
+        for b in fn.blocks:
+            t = b["t"]
+            if t["k"] == "call" and t["f"] in inl and not t.get("dyn") and scope_of(fn.path) != scope_of(t["f"]):
+                foreign.add(t["f"])
     # bottom-up order
     order, done = [], set()
 
@@ -633,6 +653,15 @@ def inline_new_helpers(F):
                 v[i] = nf
                 F.by_name[fn.name] = [nf if x is fn else x for x in F.by_name[fn.name]]
     for p in inl:
+        if p in foreign:
+            # also called from outside its own impl/module (new API such as a `pub fn clear` on a core
+            # type used by a native): rules scoped to that impl must still see it as a function
+            rb = rebuilt.get(p)
+            if rb is not None:
+                F.fns[p][0] = rb
+                F.by_name[rb.name] = [rb if x is new[p] else x for x in F.by_name[rb.name]]
+            F.inlined[p] = "kept"
+            continue
         fn = F.fns.pop(p)[0]
         F.by_name[fn.name] = [x for x in F.by_name[fn.name] if x is not fn]
         F.inlined[p] = True
@@ -757,6 +786,9 @@ class Syn:
                 j = json.loads(line)
                 rel = os.path.relpath(j["file"], REPO)
                 self.files[rel] = j
+        self.inlined = []
+        if not os.environ.get("LAYTHE_NO_INLINE"):
+            syn_inline_new_helpers(self)
 
     def items(self, rel):
         j = self.files.get(rel)
@@ -799,6 +831,91 @@ class Syn:
             if it.get("k") == "const" and it["name"] == name:
                 return it
         return None
+
+
+def syn_fn_keys(S):
+    """'file|impl self|name' for every non-test fn item"""
+    out = []
+    for rel in sorted(S.files):
+        for cont, it in S.walk_items(rel):
+            if it.get("k") != "fn" or any(c[0] == "mod" and c[1] in ("test", "tests") for c in cont):
+                continue
+            impl = next((re.sub(r"<.*", "", c[1]).strip() for c in cont if c[0] == "impl"), "")
+            out.append("%s|%s|%s" % (rel, impl, it["name"]))
+    return out
+
+
+def syn_inline_new_helpers(S):
+    """The syntax-level twin of inline_new_helpers: a method/function that is not on the reference
+    tree (pinned_fns.json, key syn_fns) and is called as `self.h(..)` / `h(..)` from the same impl or
+    file is substituted at the call: `{ let p1 = a1; ..; <body of h> }`, and removed as an item.
+    Not inlined: helpers that return early (`return`, `?`: the substituted text would read as the
+    caller returning), recursive ones, ones never called that way."""
+    try:
+        with open(os.path.join(os.path.dirname(__file__), "pinned_fns.json")) as f:
+            pinned = set(json.load(f).get("syn_fns", []))
+    except OSError:
+        return
+    if not pinned:
+        return
+    for _round in range(3):
+        changed = False
+        for rel in sorted(S.files):
+            if not rel.startswith("laythe"):
+                continue
+            groups = {}
+            for cont, it in S.walk_items(rel):
+                if it.get("k") != "fn" or any(c[0] == "mod" and c[1] in ("test", "tests") for c in cont):
+                    continue
+                impl = next((re.sub(r"<.*", "", c[1]).strip() for c in cont if c[0] == "impl"), "")
+                groups.setdefault(impl, []).append(it)
+            for impl, fns in groups.items():
+                new = [it for it in fns if "%s|%s|%s" % (rel, impl, it["name"]) not in pinned and it.get("body")]
+                for h in new:
+                    body_nodes = list(walk_expr(h["body"]))
+                    if any(n.get("e") in ("return", "try") for n in body_nodes):
+                        continue
+                    is_method = bool(h.get("args")) and h["args"][0].get("name") == "self"
+                    params = [a["name"] for a in h.get("args", []) if a.get("name") != "self"]
+
+                    def is_call(n):
+                        if is_method:
+                            return n.get("e") == "mcall" and n.get("m") == h["name"] and (n.get("recv") or {}).get("e") == "path" and n["recv"].get("p") == "self"
+                        return n.get("e") == "call" and (n.get("f") or {}).get("e") == "path" and n["f"].get("p", "").split("::")[-1] == h["name"]
+                    if any(is_call(n) for n in body_nodes):
+                        continue  # recursive
+                    hit = False
+                    for it in fns:
+                        if it is h or not it.get("body"):
+                            continue
+                        for n in list(walk_expr(it["body"])):
+                            if is_call(n) and len(n.get("args") or []) == len(params):
+                                args = n["args"]
+                                line = n.get("line", 0)
+                                stmts = [{"s": "let", "line": line, "pat": {"p": "ident", "name": pn, "ref": False, "mut": False, "sub": None}, "init": a, "else": None} for pn, a in zip(params, args)]
+                                body = json.loads(json.dumps(h["body"]))
+                                stmts += body.get("stmts", []) if body.get("e") == "block" else [{"s": "expr", "line": line, "semi": False, "e": body}]
+                                n.clear()
+                                n.update({"e": "block", "line": line, "end": line, "stmts": stmts, "inl": h["name"]})
+                                hit = True
+                    if hit:
+                        S.inlined.append("%s|%s|%s" % (rel, impl, h["name"]))
+                        _syn_remove_item(S, rel, h)
+                        changed = True
+        if not changed:
+            break
+
+
+def _syn_remove_item(S, rel, target):
+    def rec(items):
+        for i, it in enumerate(list(items or [])):
+            if it is target:
+                items.remove(it)
+                return True
+            if it.get("k") in ("mod", "impl", "trait") and rec(it.get("items")):
+                return True
+        return False
+    rec(S.items(rel))
 
 
 def walk_expr(x):
